@@ -19,6 +19,8 @@ import (
 	"time"
 
 	k1 "github.com/decred/dcrd/dcrec/secp256k1/v4"
+	"github.com/libp2p/go-libp2p/core/host"
+	"github.com/libp2p/go-libp2p/core/network"
 	"github.com/libp2p/go-libp2p/core/peer"
 
 	"github.com/obolnetwork/charon/cluster"
@@ -47,6 +49,9 @@ const (
 	// A ceremony is declared stuck only when every envelope was delivered, nothing was sent for
 	// this long AND a handler demonstrably rejected an honest message (otherwise: watchdog).
 	stuckSettle = 15 * time.Second
+	// Watchdog of a transport-fault ceremony: a ceremony that hangs after the injected fault is
+	// "no verdict", so there is no point in waiting long.
+	faultWatchdog = 60 * time.Second
 )
 
 // grid returns the ceremony list of the tier.
@@ -66,6 +71,13 @@ func grid(thorough bool) []ceremony {
 	if thorough {
 		add(engFrost, []int{3, 4, 5, 6, 7, 8}, []int{1, 2, 3, 4}, 3)
 		add(engPedersen, []int{3, 4, 5, 6, 7, 8}, []int{1, 2, 3, 4}, 3)
+		base := len(out)
+		add(engFrost, []int{3, 4, 5, 6, 7, 8}, []int{1, 2}, 2)
+		add(engPedersen, []int{3, 4, 5, 6}, []int{1, 2}, 1)
+		for i := base; i < len(out); i++ {
+			out[i].Rep += 3
+			out[i].Focus = "fault"
+		}
 		for _, n := range []int{3, 4} {
 			for _, algo := range []string{"frost", "pedersen"} {
 				out = append(out, ceremony{Engine: engFullRun + "-" + algo, N: n, T: n - 1, V: 2, Rep: 0})
@@ -83,6 +95,14 @@ func grid(thorough bool) []ceremony {
 			out[i].Rep += 2
 			out[i].Focus = "concurrent"
 		}
+		// Transport-fault dimension: one transient relay-type stream failure per ceremony.
+		base = len(out)
+		add(engFrost, []int{3, 4, 5}, []int{1, 2}, 1)
+		add(engPedersen, []int{3, 4}, []int{1, 2}, 1)
+		for i := base; i < len(out); i++ {
+			out[i].Rep += 3
+			out[i].Focus = "fault"
+		}
 	}
 
 	return out
@@ -93,12 +113,13 @@ func TestCheck(t *testing.T) {
 	defer r.Finish()
 	r.Rule("case = one independent key generation ceremony (engine frost|pedersen|fullrun, n, t, v, repeat) run by the REAL charon code on n nodes with fresh PRNG secp256k1 identities over fakenet; " +
 		"every envelope is held and released by a PRNG scheduler in one of 11 orders (eager random/LIFO, settled batches shuffled/reversed, laggard sender/receiver, strict class/receiver/sender priority, targeted re-delivery, targeted concurrent duplicates), nothing dropped; " +
-		"3/4 of the ceremonies additionally see byte-identical RE-DELIVERIES of one-way reliable-broadcast messages (immediately / after a later-round message of the same sender / late / mixed / concurrently: original and 1-3 copies handled by the receiver in overlapping handler goroutines); every fourth case sees every message exactly once; the targeted mode keeps laggard C's round-1 broadcast from receiver B until a faster sender A had a later-round message handled by B and A's round-1 broadcast was delivered to B again; " +
+		"3/4 of the ceremonies additionally see byte-identical RE-DELIVERIES of one-way reliable-broadcast messages (immediately / after a later-round message of the same sender / late / mixed / concurrently: original and 1-3 copies handled by the receiver in overlapping handler goroutines); every fourth case sees every message exactly once; ceremonies marked focus=fault instead get exactly one transient relay-type stream failure (network.ErrReset / ErrResourceScopeClosed) at one stream of one node B (K-th message or signature-request stream of its round-R reliable broadcast, a FROST share stream, a pedersen bundle stream) while another peer C's round-R broadcast is kept from B until B's retried broadcast was seen on the wire and B moved on; the targeted mode keeps laggard C's round-1 broadcast from receiver B until a faster sender A had a later-round message handled by B and A's round-1 broadcast was delivered to B again; " +
 		"non-trivial = the ceremony succeeded on all n nodes and at least one envelope was delivered before an envelope sent earlier; distinct = hash of (engine,n,t,v, sequence of (from,to,message class) deliveries)")
 	r.Assume("herumi (tbls) group arithmetic is correct: the oracle evaluates RecoverPubkey/RecoverSecret/ThresholdAggregate/Verify of the production tbls package on the ceremony outputs (C08 checks tbls itself)")
 	r.Assume("kryptology FROST and drand/kyber pedersen draw their polynomial coefficients from crypto/rand: key material is not replayable from the seed, the schedule mode, identities and configuration are")
 	r.Assume("a ceremony that does not finish before the generous watchdog is inconclusive unless a delivered honest message was demonstrably rejected by the receiving node's handler (logical event, captured from charon's log)")
 	r.Assume("C11 speaks about successful ceremonies: a ceremony that fails or hangs while re-deliveries were injected into it (e.g. the pedersen board's node-pubkey queue filled by a repeated broadcast) is recorded as information only (ceremonies_failed_under_redelivery/...), never as a violation; ceremony-failed is a violation only when every message was delivered exactly once")
+	r.Assume("a ceremony that aborts or hangs after an injected transient stream failure gives no verdict (counted in ceremonies_no_verdict_under_fault/...), it is never a violation and leaves the success-ratio denominator; the output oracle applies whenever all nodes report success")
 	r.RacePkgs(false, "dkg")
 	r.Require("t_subsets_checked", 100)
 	r.Require("reordered_ceremonies", 10)
@@ -135,6 +156,7 @@ func TestCheck(t *testing.T) {
 	r.Require("redeliveries", int64(n))
 	r.Require("targeted_redelivery_patterns", int64(n/20))
 	r.Require("concurrent_duplicate_pairs", int64(2*n))
+	r.Require("transport_faults_fired", int64(n/10))
 	reg := &keyRegistry{seen: map[tbls.PublicKey]string{}}
 	par := 6
 	r.Set("grid_size", len(list))
@@ -151,7 +173,7 @@ func TestCheck(t *testing.T) {
 	// failed or hung while duplicates were injected are information only and leave the denominator;
 	// what may be missing otherwise are ceremonies discarded for wall-clock timeouts of the real code.
 	if !r.Replaying() {
-		denom := r.Counter("ceremonies_started") - r.Counter("ceremonies_failed_under_redelivery")
+		denom := r.Counter("ceremonies_started") - r.Counter("ceremonies_failed_under_redelivery") - r.Counter("ceremonies_no_verdict_under_fault")
 		if ok := r.Counter("ceremonies_succeeded"); ok*4 < denom*3 {
 			r.Inconclusive("only %d of %d counted ceremonies succeeded (%d more failed under re-delivery and are not counted), need 3/4", ok, denom, r.Counter("ceremonies_failed_under_redelivery"))
 		}
@@ -261,6 +283,32 @@ func runFakenetCeremony(c *kit.Case, cer ceremony, reg *keyRegistry, logs *faken
 		mode = modeConcurrentTargeted
 		dupProfile = rng.Intn(numDupProfiles)
 	}
+	var plan *faultPlan
+	if cer.Focus == "fault" {
+		mode, dupProfile = modeFaultHold, dupNone
+		pm := rng.Perm(n)
+		plan = &faultPlan{B: pm[0], C: pm[1], n: n, calls: map[string]int{}, K: 1 + rng.Intn(n-1), Round: 1 + rng.Intn(2)}
+		plan.err, plan.ErrName = network.ErrReset, "network.ErrReset"
+		if rng.Intn(10) < 3 {
+			plan.err, plan.ErrName = network.ErrResourceScopeClosed, "network.ErrResourceScopeClosed"
+		}
+		x := rng.Intn(100)
+		switch {
+		case cer.Engine == engFrost && x < 45:
+			plan.Kind = "msg"
+		case cer.Engine == engFrost && x < 80:
+			plan.Kind = "sig"
+		case cer.Engine == engFrost:
+			plan.Kind, plan.Round = "p2p", 0 // node aborts on both trees: nothing to hold
+		case x < 60:
+			plan.Kind, plan.Round = "bundle", 0 // retried by the real p2p.Sender: the ceremony should still complete
+			plan.K = 1 + rng.Intn(3*(n-1))
+		case x < 80:
+			plan.Kind, plan.Round = "msg", 1 // pedersen has one reliable broadcast (node pubkeys)
+		default:
+			plan.Kind, plan.Round = "sig", 1
+		}
+	}
 	patience := 30 * time.Second
 	if cer.Engine == engPedersen {
 		// board handlers block until the protocol goroutine takes the bundle
@@ -273,6 +321,18 @@ func runFakenetCeremony(c *kit.Case, cer ceremony, reg *keyRegistry, logs *faken
 			sc.burst = v
 		}
 	}
+	hostOf := func(i int) host.Host { return m.hosts[i] }
+	if plan != nil {
+		sc.flt = plan
+		plan.onFire = sc.noteFault
+		hostOf = func(i int) host.Host {
+			if i == plan.B {
+				return faultHost{Host: m.hosts[i], plan: plan}
+			}
+
+			return m.hosts[i]
+		}
+	}
 	logStart := logs.Len()
 
 	ctx, cancel := context.WithCancel(context.Background())
@@ -283,10 +343,10 @@ func runFakenetCeremony(c *kit.Case, cer ceremony, reg *keyRegistry, logs *faken
 	nodeFns := make([]func() ([]share.Share, error), n)
 	for i := 0; i < n; i++ {
 		i := i
-		bc := bcast.New(m.hosts[i], m.ids, m.keys[i], session)
+		bc := bcast.New(hostOf(i), m.ids, m.keys[i], session)
 		switch cer.Engine {
 		case engFrost:
-			tp, err := dkg.VerifNewFrostP2P(m.hosts[i], m.peerMap, bc, t, v)
+			tp, err := dkg.VerifNewFrostP2P(hostOf(i), m.peerMap, bc, t, v)
 			if err != nil {
 				r.Inconclusive("case %d: newFrostP2P: %v", c.Idx, err)
 				sc.shutdown()
@@ -299,7 +359,7 @@ func runFakenetCeremony(c *kit.Case, cer ceremony, reg *keyRegistry, logs *faken
 			}
 		case engPedersen:
 			cfg := pedersen.NewConfig(m.ids[i], m.peerMap, t, session, pedersenPhase, nil)
-			board := pedersen.NewBoard(ctx, m.hosts[i], cfg, bc)
+			board := pedersen.NewBoard(ctx, hostOf(i), cfg, bc)
 			nodeFns[i] = func() ([]share.Share, error) {
 				return pedersen.RunDKG(ctx, cfg, board, v)
 			}
@@ -318,6 +378,7 @@ func runFakenetCeremony(c *kit.Case, cer ceremony, reg *keyRegistry, logs *faken
 		go func() {
 			res, err := nodeFns[i]()
 			results[i] = res // published by the channel send below
+			sc.returned[i].Store(true)
 			doneCh <- nodeDone{i, err}
 		}()
 	}
@@ -336,7 +397,11 @@ func runFakenetCeremony(c *kit.Case, cer ceremony, reg *keyRegistry, logs *faken
 	outcome := outOK
 	remaining := n
 	firstFailed := -1
-	wd := time.NewTimer(ceremonyWatchdog)
+	watchdog := ceremonyWatchdog
+	if plan != nil {
+		watchdog = faultWatchdog
+	}
+	wd := time.NewTimer(watchdog)
 	tick := time.NewTicker(100 * time.Millisecond)
 	lastSent, quietSince := int64(-1), time.Now()
 wait:
@@ -410,12 +475,17 @@ wait:
 	if outcome != outOK {
 		// Was any duplicate injected into this ceremony before it failed / stopped moving?
 		underDup := sc.stats().RedelivTotal > 0
+		faulted := plan != nil && plan.hasFired()
+		if faulted {
+			r.Count("transport_faults_fired", 1)
+			r.Seen("fault_kinds", fmt.Sprintf("%s/%s/round%d/%s", cer.Engine, plan.Kind, plan.Round, plan.ErrName))
+		}
 		// Observe the state BEFORE cancelling anything: let the other nodes run until nothing moves
 		// (only as long as the outcome can matter for a verdict).
 		delivered := false
 		switch {
 		case outcome == outDupDeadlock:
-		case underDup:
+		case underDup, faulted:
 			delivered = quiesce(sc, 2*time.Second)
 		default:
 			delivered = quiesce(sc, 15*time.Second)
@@ -447,7 +517,30 @@ wait:
 		w := map[string]any{"ceremony": cer, "case": c.Idx, "schedule": st, "all_delivered": delivered, "handler_errors": rejected,
 			"first_failed_node": firstFailed, "node_errors_after_cancel": errStrings(errs), "deliveries": sc.orderCopy(300),
 			"redelivery_deadlock": map[string]any{"detected": dupDeadlock, "node": dlNode, "round1_broadcasts_handled_before_own_broadcast_completed": dlBefore, "of_which_repeats_total": dlRepeats}}
+		if plan != nil {
+			w["fault"] = plan
+			w["fault_fired"] = faulted
+		}
 		switch {
+		case faulted:
+			// A transient stream failure was injected. The property allows the ceremony to abort
+			// (on the unchanged tree a relay error on a reliable broadcast or share send makes the
+			// node return an error and the others wait for it): no verdict, counted, never a violation.
+			reason := "did-not-complete"
+			switch {
+			case outcome == outNodeError:
+				reason = errClass(firstErr)
+			case outcome == outWatchdog:
+				reason = "watchdog"
+			case outcome == outStuckRejected && len(rejected) > 0:
+				reason = "stuck-after-handler-rejected-" + rejected[0].Class
+			case dropped > 0:
+				reason = "board-handler-dropped-bundle-after-receive-timeout"
+			}
+			r.Count("ceremonies_no_verdict_under_fault", 1)
+			r.Count("ceremonies_no_verdict_under_fault/"+cer.Engine+"/"+plan.Kind+"/"+reason, 1)
+			r.Seen("no_verdict_under_fault_cases", fmt.Sprintf("case %d/%s/%s-r%d-k%d/%s/%s", c.Idx, cer, plan.Kind, plan.Round, plan.K, plan.ErrName, reason))
+			r.Set("no_verdict_under_fault_example/"+cer.Engine+"/"+plan.Kind, w)
 		case underDup:
 			// The property speaks about SUCCESSFUL ceremonies. A ceremony that fails or hangs while
 			// duplicates were injected produces no keys: information only, never a violation, and not
@@ -512,6 +605,17 @@ wait:
 
 	r.Count("ceremonies_succeeded", 1)
 	r.Count("ceremonies_succeeded_"+cer.Engine, 1)
+	if plan != nil {
+		if plan.hasFired() {
+			r.Count("transport_faults_fired", 1)
+			r.Count("ceremonies_succeeded_after_fault", 1)
+			r.Count("ceremonies_succeeded_after_fault/"+cer.Engine+"/"+plan.Kind, 1)
+			r.Seen("fault_hold_released_because", cer.Engine+"/"+plan.Kind+"/"+st.FaultHeld)
+		} else {
+			r.Count("fault_planned_but_not_reached", 1)
+		}
+		r.Seen("fault_kinds", fmt.Sprintf("%s/%s/round%d/%s", cer.Engine, plan.Kind, plan.Round, plan.ErrName))
+	}
 	r.Count("envelopes_delivered", st.Delivered)
 	r.Count("delivery_inversions", int64(st.Inversions))
 	r.Count("envelopes_released_by_hold_time_cap", int64(st.AgedOut))
